@@ -35,7 +35,7 @@ Imports == [ext |-> [path |-> "ext",    alias |-> "",   declared |-> "ext"],
 Pkgs == DOMAIN Imports
 Qual(k) == IF Imports[k].alias # "" THEN Imports[k].alias ELSE Imports[k].declared
 Cfg == [style: Styles, recv: BOOLEAN, reverse: BOOLEAN, srcPtr: BOOLEAN, dstPtr: BOOLEAN,
-        retErr: BOOLEAN, nargs: 0..MaxArgs, named: BOOLEAN, imp: Imps, pkg: Pkgs]
+        retErr: BOOLEAN, nargs: 0..MaxArgs, named: BOOLEAN, namedRes: BOOLEAN, imp: Imps, pkg: Pkgs]
 
 VARIABLES cfg, pc, shape
 vars == <<cfg, pc, shape>>
@@ -54,7 +54,8 @@ ArgDefNames  == <<"arg0", "arg1", "arg2">>
 SrcName(c) == IF c.recv THEN "rc"
               ELSE IF c.named THEN "from"
               ELSE IF c.reverse THEN "dst" ELSE "src"
-DstName(c) == IF c.named THEN "to"
+\* parameters and results are named independently of each other (Go names all of a list or none)
+DstName(c) == IF c.namedRes THEN "to"
               ELSE IF c.reverse THEN "src" ELSE "dst"
 ArgName(c, i) == IF c.named THEN ArgDeclNames[i] ELSE ArgDefNames[i]
 
@@ -64,7 +65,7 @@ NoRecv == P("", "")
 
 \* the import form matters only when an operand is imported; forms other than the
 \* plain one are explored with the parameter names left to the tool
-Init == cfg \in {c \in Cfg : (c.imp = "none" => c.pkg = "ext") /\ (c.pkg # "ext" => ~c.named)} /\ pc = "validate" /\ shape = [reject |-> FALSE, recv |-> NoRecv, params |-> << >>, results |-> << >>]
+Init == cfg \in {c \in Cfg : (c.imp = "none" => c.pkg = "ext") /\ (c.pkg # "ext" => ~c.named /\ ~c.namedRes)} /\ pc = "validate" /\ shape = [reject |-> FALSE, recv |-> NoRecv, params |-> << >>, results |-> << >>]
 
 Reject == shape' = [reject |-> TRUE, recv |-> NoRecv, params |-> << >>, results |-> << >>] /\ pc' = "done"
 
@@ -119,6 +120,10 @@ ErrLast == Acc => LET n == Len(shape.results) IN
 NamesPreserved == Acc /\ cfg.named =>
                     /\ (~cfg.recv => \E i \in DOMAIN shape.params : shape.params[i] = P("from", SrcType(cfg)))
                     /\ \A i \in 1..cfg.nargs : \E j \in DOMAIN shape.params : shape.params[j].name = ArgDeclNames[i]
+ResultNamePreserved == Acc /\ cfg.namedRes =>
+                    \E i \in DOMAIN shape.params \cup DOMAIN shape.results :
+                       \/ (i \in DOMAIN shape.params /\ shape.params[i].name = "to")
+                       \/ (i \in DOMAIN shape.results /\ shape.results[i].name = "to")
 \* the illegal combinations, and only they, are rejected
 IllegalRejected == Done => (shape.reject <=> \/ (cfg.reverse /\ (cfg.style = "return" \/ cfg.nargs > 0))
                                              \/ (cfg.recv /\ cfg.imp \in {"src", "both"}))
